@@ -70,9 +70,12 @@ theorem readStringBody_fuel : ∀ (f1 f2 : Nat) (s : S), Inv s →
       have hne : s.readChar.ch ≠ nul := by intro e; simp [e] at hc
       have hlt' := (readChar_inv s).lt_of_ne hne
       rw [readChar_input, h.readChar_pos] at hlt'
-      exact readStringBody_fuel f1 f2 s.readChar (readChar_inv s) (by omega)
-        (by rw [readChar_input, h.readChar_pos]; omega) (by omega)
-        (by rw [readChar_input, h.readChar_pos]; omega)
+      obtain ⟨i', hin', hpos', -⟩ := bump_facts s.readChar (readChar_inv s)
+      generalize (if (s.readChar.ch == '\n') = true then { s.readChar with line := s.readChar.line + 1 } else s.readChar) = s1'
+        at i' hin' hpos'
+      exact readStringBody_fuel f1 f2 s1' i' (by omega)
+        (by rw [hin', hpos', readChar_input, h.readChar_pos]; omega) (by omega)
+        (by rw [hin', hpos', readChar_input, h.readChar_pos]; omega)
 
 theorem skipLine_fuel : ∀ (f1 f2 : Nat) (s : S), Inv s →
     0 < f1 → s.input.size - s.position ≤ f1 → 0 < f2 → s.input.size - s.position ≤ f2 →
@@ -294,6 +297,14 @@ theorem shift_ite (c : Prop) [Decidable c] (x y : S) :
     (if c then shift pre d x else shift pre d y) = shift pre d (if c then x else y) := by
   split <;> rfl
 
+/-- the line increment inside a string literal / on the character of a char literal -/
+theorem shift_bump (c : Prop) [Decidable c] (a : S) :
+    (if c then { shift pre d a with line := (shift pre d a).line + 1 } else shift pre d a) =
+      shift pre d (if c then { a with line := a.line + 1 } else a) := by
+  split
+  · simp only [shift, Nat.add_right_comm]
+  · rfl
+
 /-! ### the loops commute with `shift` (same fuel, no side condition) -/
 
 theorem readWhile_shift (p : Char → Bool) : ∀ (f : Nat) (a : S),
@@ -319,10 +330,14 @@ theorem readStringBody_shift : ∀ (f : Nat) (a : S),
   | 0, _ => rfl
   | f+1, a => by
     rw [readStringBody, readStringBody]
-    simp only [shift_ch, shift_readChar]
-    split
-    · rfl
-    · exact readStringBody_shift f a.readChar
+    simp only [shift_readChar]
+    simp only [shift_bump]
+    by_cases hc : (a.readChar.ch == '"' || a.readChar.ch == nul) = true
+    · have hc' : ((shift pre d a.readChar).ch == '"' || (shift pre d a.readChar).ch == nul) = true := hc
+      rw [if_pos hc, if_pos hc']
+    · have hc' : ¬ ((shift pre d a.readChar).ch == '"' || (shift pre d a.readChar).ch == nul) = true := hc
+      rw [if_neg hc, if_neg hc']
+      exact readStringBody_shift f _
 
 theorem skipLine_shift : ∀ (f : Nat) (a : S),
     skipLine f (shift pre d a) = shift pre d (skipLine f a)
@@ -417,15 +432,20 @@ theorem readString_shift (a : S) (h : Inv a) : readString (shift pre d a) = shif
 theorem readCharToken_shift (a : S) : readCharToken (shift pre d a) = shiftRes pre d (readCharToken a) := by
   simp only [readCharToken, shift_readChar]
   generalize a.readChar = a1
+  simp only [shift_bump]
   simp only [shift_position, shift_size, ge_iff_le, Nat.add_le_add_iff_right, shift_getD, shift_elem,
     shift_readChar, shift_ch, shift_mk, shiftRes_ite, shiftRes_tok]
-  have i2 := readChar_inv a1
-  generalize a1.readChar = a2 at i2
-  rw [readUntilQuote_site pre d a2 i2 (a2.input.size + pre.size + 1) (a2.input.size + 1) (by omega) (by omega)]
-  generalize readUntilQuote (a2.input.size + 1) a2 = a3
-  simp only [shift_ch, shift_readChar, shift_ite, shift_position, shift_slice]
-  generalize (if (a3.ch == '\'') = true then a3.readChar else a3) = a4
-  cases a1.at a1.position <;> cases a4.slice a.position a4.position <;> (try simp only [shiftRes_ite, shiftRes_tok, shift_mk]) <;> rfl
+  cases a1.at a1.position with
+  | none => split <;> rfl
+  | some c =>
+    simp only []
+    have i2 := readChar_inv (if (c == '\n') = true then { a1 with line := a1.line + 1 } else a1)
+    generalize (if (c == '\n') = true then { a1 with line := a1.line + 1 } else a1).readChar = a2 at i2
+    rw [readUntilQuote_site pre d a2 i2 (a2.input.size + pre.size + 1) (a2.input.size + 1) (by omega) (by omega)]
+    generalize readUntilQuote (a2.input.size + 1) a2 = a3
+    simp only [shift_ch, shift_readChar, shift_ite, shift_position, shift_slice]
+    generalize (if (a3.ch == '\'') = true then a3.readChar else a3) = a4
+    cases a4.slice a.position a4.position <;> (try simp only [shiftRes_ite, shiftRes_tok, shift_mk]) <;> rfl
 
 theorem readIdentifier_shift (a : S) (h : Inv a) :
     readIdentifier (shift pre d a) = shiftRes pre d (readIdentifier a) := by
